@@ -1,7 +1,7 @@
 ----------------------------- MODULE MC_Payoff -----------------------------
 EXTENDS Payoff
 AllKinds == {"european", "lookback", "european_binary", "american_binary", "forward_start", "variance_swap"}
-KStrikes == { <<1, 1>>, <<2, 1>>, <<3, 1>>, <<3, 2>>, <<1, 2>>, <<5, 1>> }
+KStrikes == { <<1, 1>>, <<2, 1>>, <<3, 1>>, <<3, 2>>, <<1, 2>>, <<5, 1>>, <<11, 10>> }    \* 11/10 is not representable in float32
 NoOps    == { <<>> }
 OpsMenu  == { <<>>,
               << <<"a", "add1">> >>, << <<"a", "scale2">> >>, << <<"a", "cap1">> >>, << <<"a", "knock4">> >>,
